@@ -74,7 +74,14 @@ func builtinMathCosh(call FunctionCall) Value {
 
 func builtinMathExp(call FunctionCall) Value {
 	number := call.Argument(0).float64()
-	return float64Value(math.Exp(number))
+	value := math.Exp(number)
+	if math.IsInf(value, 1) && number < 710 {
+		// math.Exp overflows early on some platforms (amd64: from 709.44); e^x is finite up to
+		// 709.78. Halving the argument is exact and stays far from the threshold.
+		half := math.Exp(number / 2)
+		value = half * half
+	}
+	return float64Value(value)
 }
 
 func builtinMathExpm1(call FunctionCall) Value {
